@@ -71,6 +71,28 @@ def run(rep, tier, seed):
                          "poke %d %s" % (fsi_free_off, cnt.to_bytes(4, "little").hex()), "mount 1 0 lossy"]
                 ro_lines = ["stats", "list 0", "open_file 0 %s 2" % hexs("some file.txt"), "read_all 2 5000", "stats", "status_flags", "drop_all", end]
                 scripts.append(setup + ro_lines); metas.append((len(setup), True, False, False))
+    # deterministic family: the volume is dirty because a shrinking truncate (or a growing write) was interrupted - the table was
+    # updated at once, the entry's size only at close, and the handle was never closed (`forget`).  Such a volume is "dirty at
+    # mount"; the read-only session seeks to / beyond the end of the surviving chain, to the recorded size and past it
+    for conf in confs:
+        for variant in ("shrink", "shrink0", "grow"):
+            for end in ("unmount", "dropfs"):
+                nm = hexs("victim file.bin")
+                setup = ["dev %d 0" % conf[1], "wlog 0", conf[2], "pages", "wlog 1", "mount 1 0 lossy",
+                         "create_file 0 %s 1" % nm, "write_pat 1 70000 3", "drop_all",
+                         "create_file 0 %s 2" % hexs("other.txt"), "write_pat 2 900 4", "drop_all", "unmount", "mount 1 0 lossy",
+                         "open_file 0 %s 3" % nm]
+                if variant == "shrink":
+                    setup += ["seek 3 start 700", "truncate 3"]
+                elif variant == "shrink0":
+                    setup += ["seek 3 start 0", "truncate 3"]
+                else:
+                    setup += ["seek 3 end 0", "write_pat 3 50000 5"]
+                setup += ["forget", "mount 1 0 lossy"]
+                ro_lines = ["list 0", "open_file 0 %s 4" % nm, "seek 4 end 0", "read 4 100", "seek 4 start 69999", "read 4 10",
+                            "seek 4 start 700", "read 4 5000", "seek 4 start 200000", "seek 4 cur 0", "read_all 4 200000", "extents 4",
+                            "open_file 0 %s 5" % hexs("other.txt"), "read_all 5 2000", "status_flags", "drop_all", end]
+                scripts.append(setup + ro_lines); metas.append((len(setup), conf[0].startswith("fat32"), True, False))
     res = vlib.run_scripts(scripts)
     ro_calls = 0
     for sc_lines, ops, (start, is32, dirty, nocount) in zip(scripts, res, metas):
